@@ -22,9 +22,7 @@ Binding: call histories simulated by TLC (ConnLifeImplSim*.cfg) and seeded
 """
 import copy
 import glob
-import json
 import os
-import random
 import re
 
 import vlib
@@ -47,10 +45,11 @@ MAIN = [
 ]
 MAIN_BIG = [
     ("ConnLifeImplStatsBig.cfg", "Statistics driven directly, 7 calls"),
-    ("ConnLifeImplLifeBig.cfg", "http lifecycle, 7 calls"),
-    ("ConnLifeImplLastBig.cfg", "http last_* attributes, 6 calls"),
-    ("ConnLifeImplRecBig.cfg", "http recorders, 6 calls"),
-    ("ConnLifeImplMockBig.cfg", "mock, 6 calls"),
+    ("ConnLifeImplLifeBig.cfg", "http lifecycle, 8 calls"),
+    ("ConnLifeImplLastBig.cfg", "http last_* attributes, 7 calls"),
+    ("ConnLifeImplStatBig.cfg", "http statistics through operations, 6 calls"),
+    ("ConnLifeImplRecBig.cfg", "http recorders, 7 calls"),
+    ("ConnLifeImplMockBig.cfg", "mock, 7 calls"),
 ]
 # (cfg, clause that TLC must report, what the configuration is, quick tier?)
 REGRESSION = [
@@ -125,8 +124,8 @@ def run(ctx):
 
     # ---- 2. histories: from TLC and seeded random -------------------------
     worlds = []
-    nsim = 60 if quick else 700
-    depth = 14 if quick else 22
+    nsim = 40 if quick else 700
+    depth = 12 if quick else 22
     nbeh = 0
     for mode, cfg in SIMS:
         _, behs = ctx.simulate_behaviours(
@@ -444,8 +443,19 @@ def replay(rep):
     w = H.run_calls(case["abstract_calls"], final_peeks=False)
     print("\n".join(w.calls))
     ctx = vlib.Ctx(rep["property"] + "_replay", "quick", rep.get("seed", 0))
-    v = ctx.validate_traces("ConnLifeTrace", "ConnLifeTrace.cfg",
-                            [w.events])[0]
+    events = copy.deepcopy(w.events)
+    v = None
+    for _ in range(len(events) + 1):
+        v = ctx.validate_traces("ConnLifeTrace", "ConnLifeTrace.cfg",
+                                [events])[0]
+        if v["ok"] or v["at"] == len(events):
+            break
+        # an earlier event deviates too (e.g. a known deviation): waive it
+        # there and judge the rest
+        print("earlier deviation at event %d: %s (waived)" %
+              (v["at"], v["clauses"]))
+        for e in events[v["at"] - 1:-1]:
+            e["waive"] = sorted(set(e["waive"]) | set(v["clauses"]))
     print("verdict:", v)
     if not v["ok"]:
         print("EXT-DEVIATION ext=%s replay=(reproduced) %s" %
